@@ -708,6 +708,9 @@ class Interp(Ops, B.BuiltinsMixin):
         if isinstance(cur, ListV) and isinstance(op, ast.Add):
             cur.items.extend(list(self.iterate(val)))
             return cur
+        if isinstance(cur, NdArr):
+            from . import npmodel
+            return npmodel.inplace(self, op, cur, val)
         r = self.inplace_hook(op, cur, val)
         if r is not NOT_IMPLEMENTED:
             return r
